@@ -172,10 +172,45 @@ def conc_scenarios(tier):
         ("probe-compact-remove", spread, [[C], [R(1, 3)], [I(2, 1)]], cap3),
         ("probe-compact-migrate", fill + [I(1, 3), I(1, 4)], [[C], [I(4, 1)], [R(1, 2)]], cap3),
     ]
+    # batch calls (insert_array / remove_array) are not modelled step by step: calls that commute, every schedule must
+    # end with the stated content, and flush + cold load must return it
+    IA = lambda i, ks: {"op": "insert_array", "id": i, "ks": ks}
+    RA = lambda i, ks: {"op": "remove_array", "id": i, "ks": ks}
+
+    def expect(setup, threads):
+        post = {k: set() for k in range(1, 7)}
+        for op in setup + [o for t in threads for o in t]:
+            if op["op"] == "insert":
+                post[op["k"]].add(op["id"])
+            elif op["op"] == "insert_array":
+                for k in op["ks"]:
+                    post[k].add(op["id"])
+        for op in [o for t in threads for o in t]:          # removals of pairs nobody re-inserts
+            if op["op"] == "remove":
+                post[op["k"]].discard(op["id"])
+            elif op["op"] == "remove_array":
+                for k in op["ks"]:
+                    post[k].discard(op["id"])
+        return [sorted(post[k]) for k in range(1, 7)]
+
+    batch = [
+        ("batch-ia-ia", fill, [[IA(4, [1, 2, 3])], [IA(5, [1, 3, 4])]], cap2),
+        ("batch-ia-ra", fill + [I(2, 2), I(2, 3)], [[IA(4, [1, 2, 5])], [RA(2, [1, 2, 3])]], cap2),
+        ("batch-ra-ra-empties", [I(1, 1), I(2, 1), I(1, 2), I(2, 2)], [[RA(1, [1, 2])], [RA(2, [1, 2])]], cap2),
+        ("batch-ia-insert-remove", fill, [[IA(4, [1, 2, 3, 4])], [I(5, 1)], [R(1, 2)]], cap3),
+        ("batch-ia-compact", spread, [[IA(2, [1, 2, 3, 6])], [C], [RA(1, [4, 5])]], cap3),
+    ]
+    probe += batch
+    expects = {n: expect(su, th) for (n, su, th, _c) in batch}
     mk = lambda lst, u, gate: [{"name": n, "nk": 6, "uniq": u, "respect_gate": gate, "setup": su, "threads": th,
                                 "cap": cap, "random": len(th) >= 3, "seed": vlib.seed() + i}
                                for i, (n, su, th, cap) in enumerate(lst)]
-    return {"dup": mk(dup, False, True), "uniq": mk(uniq, True, True), "probe": mk(probe, False, False)}
+    out = {"dup": mk(dup, False, True), "uniq": mk(uniq, True, True), "probe": mk(probe, False, False)}
+    for sc in out["probe"]:
+        if sc["name"] in expects:
+            sc["expect"] = expects[sc["name"]]
+            sc["respect_gate"] = "compact" not in sc["name"]
+    return out
 
 
 def _conc(tier, wd, groups=None, cfgs=None):
@@ -216,7 +251,9 @@ def _conc(tier, wd, groups=None, cfgs=None):
         out["blocked"] += summ["blocked"]
         for mm in summ["final_mismatch"]:
             out["failures"].append({"tag": f"{group}:{mm['scenario']}", "reason": "after the threads finished, flush + "
-                                    "cold load does not return the in-memory content", "line_in_trace": 0,
+                                    "cold load does not return the in-memory content" if "loaded" in mm else
+                                    "after the threads finished the content is not what the (commuting) calls add up to",
+                                    "line_in_trace": 0,
                                     "event": mm, "trace": [], "header": None})
         if summ["deadlocks"]:
             out["failures"].append({"tag": group, "reason": f"{summ['deadlocks']} schedules deadlocked",
@@ -319,7 +356,9 @@ def run(tier):
                 "(DFS, capped; random for 3 threads) of the scenario list; every step must be the specification's "
                 "action for the lock scope just left and the observed layout must equal the next specification state; "
                 "then flush + cold load must return Content. Gate probes: compaction started while mutations are "
-                "parked mid-call (blocked threads detected by timeout), final state only",
+                "parked mid-call (blocked threads detected by timeout), final state only. Batch calls (insert_array / "
+                "remove_array, not modelled step by step): commuting calls under every schedule at their yield points "
+                "must end with the stated content and flush + cold load must return it",
         "samples": [{"query_case": q["sample"]}, {"first_events": h.get("sample")}],
         "exhaustive": True,
         "model_checking": {"cfg": f"MC_Manifest_{tier}.cfg", "states": mc["states"], "transitions": mc["generated"]},
